@@ -17,3 +17,21 @@ pub fn clock_override() -> Option<u64> {
     let clock = CLOCK.read().unwrap_or_else(|e| e.into_inner()).clone();
     clock.and_then(|clock| clock())
 }
+
+type Gate = Arc<dyn Fn(&'static str) -> futures::future::BoxFuture<'static, ()> + Send + Sync>;
+
+static GATE: RwLock<Option<Gate>> = RwLock::new(None);
+
+/// Installs (or with `None` removes) an async gate. Subscription history readers await it after
+/// every batch they fetch, so a check can let the watermark advance in the middle of a
+/// history read. Without a gate the points do nothing.
+pub fn set_gate(gate: Option<Gate>) {
+    *GATE.write().unwrap_or_else(|e| e.into_inner()) = gate;
+}
+
+pub async fn gate(point: &'static str) {
+    let gate = GATE.read().unwrap_or_else(|e| e.into_inner()).clone();
+    if let Some(gate) = gate {
+        gate(point).await;
+    }
+}
